@@ -1,6 +1,7 @@
 import E3nnVerif.Theory.S2GridComplete
 import E3nnVerif.Theory.S2GridForward
 import E3nnVerif.Theory.S2GridDFT
+import E3nnVerif.Theory.S2GridKR
 /-
 C11 — sphere / SO(3) grid transforms (`e3nn/o3/_s2grid.py`, `_so3grid.py`, `spherical_harmonics_alpha`).
 
@@ -286,27 +287,52 @@ theorem toS2Grid_fromS2Grid_bandlimited_partial (kind : Norm) (lmax N M : ℕ) (
   refine Finset.sum_congr rfl fun i hi => ?_
   rw [h3 i (Finset.mem_range.mp hi)]
 
-theorem krExact_const (c : ℝ) (hc : c * c = 1 / (4 * Real.pi)) : KRExact (fun _ _ => c) 2 0 := by
-  intro l l' k k' hl hl' hk hk' _
-  have h0 : l = 0 := by omega
-  have h0' : l' = 0 := by omega
-  subst h0; subst h0'
-  have s0 : Real.sin (Real.pi / 4) = Real.sqrt 2 / 2 := Real.sin_pi_div_four
-  have s1 : Real.sin (3 * Real.pi / 4) = Real.sqrt 2 / 2 := by
-    rw [show 3 * Real.pi / 4 = Real.pi - Real.pi / 4 by ring, Real.sin_pi_sub, Real.sin_pi_div_four]
-  have s2 : Real.sin (Real.pi * 3 / 4) = Real.sqrt 2 / 2 := by rw [← s1]; congr 1; ring
-  have hs2 : Real.sqrt 2 * Real.sqrt 2 = 2 := Real.mul_self_sqrt (by norm_num)
-  simp only [Finset.sum_range_succ, Finset.sum_range_zero, quadratureWeight, sumRange, two_real, one_real,
-    zero_real, Scalar.ofNat_real, Scalar.sin_real, Scalar.pi_real, if_true, hc]
-  norm_num
-  rw [s1, s2, show 2 * (Real.sqrt 2 / 2) * (Real.sqrt 2 / 2) = (Real.sqrt 2 * Real.sqrt 2) / 2 by ring, hs2]
-  ring
+/-! ## 5b. how much of `KRExact` is proved
 
-/-- the hypothesis is satisfiable: `lmax = 0`, `N = 2`, `P = Y_0 = 1/√(4π)` -/
-example : KRExact (fun _ _ => 1 / Real.sqrt (4 * Real.pi)) 2 0 := by
-  apply krExact_const
-  have h4 : Real.sqrt (4 * Real.pi) * Real.sqrt (4 * Real.pi) = 4 * Real.pi := Real.mul_self_sqrt (by positivity)
-  rw [div_mul_div_comm, h4, one_mul]
+The quadrature half is a theorem for all resolutions; what stays a hypothesis is a statement about the Legendre
+DATA alone.  For band limits `lmax ≤ 1` everything is proved. -/
+
+/-- **Exactness of `_quadrature_weights(b)`** on the grid `β_j = π(j+½)/(2b)` for every `cos(pβ)`, `p < 2b`
+(hence for every polynomial of degree `< 2b` in `cos β`), for ALL `b ≥ 1`:
+`Σ_j w_j (2b)² cos(p β_j) = ½∫_0^π cos(pβ) sin β dβ = [p even]/(1 − p²)`.  In particular (`p = 0`) the weights
+are normalised: `Σ_j w_j (2b)² = 1`. -/
+theorem quadrature_exact (b p : ℕ) (hb : 0 < b) (hp : p < 2 * b) :
+    ∑ j ∈ range (2 * b), (quadratureWeight b j : ℝ) * (((2 * b) ^ 2 : ℕ) : ℝ) * Real.cos (p * betas (2 * b) j)
+      = if p % 2 = 0 then 1 / (1 - (p : ℝ) ^ 2) else 0 :=
+  quadrature_exact_cos b p hb hp
+example : (0 : ℕ) < 3 ∧ 4 < 2 * 3 := by omega
+
+/-- `KRExact` follows from facts about the Legendre data alone: each product `P_{l,m} P_{l',m}` is on the grid a
+cosine polynomial `Σ_{p<N} c_p cos(pβ)` whose exact integral `Σ_{p even} c_p/(1−p²)` is `δ_{ll'}/4π` -/
+theorem krExact_of_legendre_data (P : ℕ → ℕ → ℝ) (b L : ℕ) (hb : 0 < b)
+    (h : ∀ l l' k k' : ℕ, l ≤ L → l' ≤ L → k ≤ 2 * l → k' ≤ 2 * l' → (k : ℤ) - l = (k' : ℤ) - l' →
+      ∃ c : ℕ → ℝ,
+        (∀ j, j < 2 * b → P j (l ^ 2 + k) * P j (l' ^ 2 + k')
+            = ∑ p ∈ range (2 * b), c p * Real.cos (p * betas (2 * b) j)) ∧
+        ∑ p ∈ range (2 * b), c p * (if p % 2 = 0 then 1 / (1 - (p : ℝ) ^ 2) else 0)
+            = if l = l' then 1 / (4 * Real.pi) else 0) :
+    KRExact P (2 * b) L :=
+  krExact_of_cosine_expansion P b L hb h
+
+/-- the hypothesis is satisfiable, for every even `N ≥ 2`: band limit `0`, `P = Y_0 = 1/√(4π)` -/
+theorem krExact_band_limit_0 (b : ℕ) (hb : 0 < b) :
+    KRExact (fun _ _ => 1 / Real.sqrt (4 * Real.pi)) (2 * b) 0 := by
+  apply krExact_band0 b hb
+  rw [div_mul_div_comm, Real.mul_self_sqrt (by positivity), one_mul]
+
+/-- … and for band limit `1` with the explicit Legendre factor, every even `N ≥ 4` -/
+theorem krExact_band_limit_1 (b : ℕ) (hb : 2 ≤ b) : KRExact (legendre1 (2 * b)) (2 * b) 1 :=
+  krExact_lmax1 b hb
+
+/-- **`FromS2Grid ∘ ToS2Grid = id` without any hypothesis** for `lmax ≤ 1`: every even `res_beta = 2b ≥ 4`, every
+`res_alpha ≥ 2 lmax + 1` (odd: FFT path, even: einsum path), the three normalisations, every coefficient vector;
+`P = legendre1` is the explicit Legendre factor (compared with `o3.Legendre` by the harness) -/
+theorem fromS2Grid_toS2Grid_lmax_le_1 (kind : Norm) (lmax b M : ℕ) (F : ℕ → ℝ) (hl : lmax ≤ 1) (hb : 2 ≤ b)
+    (hM : 2 * lmax + 1 ≤ M) :
+    ∃ g F', toS2Grid lmax M (nTo kind lmax) (legendre1 (2 * b)) F = .ok g ∧
+      fromS2Grid lmax (2 * b) M (nFrom kind lmax) (legendre1 (2 * b)) g = .ok F' ∧
+      ∀ i, i < (lmax + 1) ^ 2 → F' i = F i :=
+  fromS2Grid_toS2Grid_named_partial kind lmax (2 * b) M _ F hM ((krExact_lmax1 b hb).mono hl)
 
 /-- `S2Activation` with a linear activation `x ↦ c·x` (the identity has `c = 1` after `normalize2mom`): the
 output is `c ·` (input truncated / zero-padded to `lmax_out`) -/
